@@ -37,7 +37,7 @@ def check(rep, model, tier):
     rep.rule('XY-SAME-INDEX', 'plot_cyclepoints_array: every marker series is (times[cps], sig[cps]) with the same index term cps = points inside the window minus the window offset, '
                               'in the order peaks, troughs, rises, decays; plot_cyclepoints_df hands over the centre / side / midpoint columns of the table\'s centring')
     rep.assumptions += ['matplotlib / neurodsp drawing primitives render the arrays they are given (not analysed)', 'float rounding in points < times[-1]*fs and int(times[0]*fs) is not decided',
-                        'limit_df / limit_signal are decided by C18 and used here as the definition of the window']
+                        'the window is defined by the reference selections of sa/refspec/frames.py (the ones C18 compares limit_df / limit_signal with)']
     summary(rep, model)
     param_panel(rep, model)
     cyclepoints(rep, model)
@@ -73,8 +73,8 @@ def summary(rep, model):
                     Sw, sigw, timesw, start = S, zs, times_full, C(0)
                 else:
                     x0, x1 = XLIM[1]
-                    Sw = repo_eval(model, 'limit_df', {'df': S, 'fs': FS, 'start': x0, 'stop': x1, 'reset_indices': T.FALSE})
-                    lw = repo_eval(model, 'limit_signal', {'times': times_full, 'sig': zs, 'start': x0, 'stop': x1})
+                    Sw = E.spec('limit_table', {'S': S, 'fs': FS, 'start': x0, 'stop': x1, 'reset_indices': T.FALSE, 'centre': C(centre)})[0]
+                    lw = E.spec('limit_sig', {'times': times_full, 'sig': zs, 'start': x0, 'stop': x1})[0]
                     sigw, timesw, start = lw[1][0], lw[1][1], x0
                 pb = events(ctx, 'plot_bursts')
                 want_mask, _ = E.spec('burst_mask', {'S': Sw, 'n_samples': T.length(sigw), 'fs': FS, 'start': start, 'side': C(side)}, repo=model)
@@ -154,9 +154,8 @@ def param_panel(rep, model):
                 if xlim == NONE:
                     Sw, timesw = S, times_full
                 else:
-                    Sw, _ = E.spec('panel_cycles', {'S': S, 'fs': FS, 'xlim': XLIM, 'side': C(side)}, repo=None)
-                    Sw = panel_cycles_inline(model, S, side)
-                    lw = repo_eval(model, 'limit_signal', {'times': times_full, 'sig': SIG, 'start': XLIM[1][0], 'stop': XLIM[1][1]})
+                    Sw, _ = E.spec('panel_cycles', {'S': S, 'fs': FS, 'xlim': XLIM, 'side': C(side), 'centre': C(centre)})
+                    lw = E.spec('limit_sig', {'times': times_full, 'sig': SIG, 'start': XLIM[1][0], 'stop': XLIM[1][1]})[0]
                     timesw = lw[1][1]
                 pts = events(ctx, 'plot_time_series')
                 if len(pts) != 1:
@@ -211,7 +210,7 @@ def cyclepoints(rep, model):
             if xlim == NONE:
                 sigw, timesw = SIG, times_full
             else:
-                lw = repo_eval(model, 'limit_signal', {'times': times_full, 'sig': SIG, 'start': XLIM[1][0], 'stop': XLIM[1][1]})
+                lw = E.spec('limit_sig', {'times': times_full, 'sig': SIG, 'start': XLIM[1][0], 'stop': XLIM[1][1]})[0]
                 sigw, timesw = lw[1][0], lw[1][1]
             pts = [e for e in events(ctx, 'plot_time_series')]
             if len(pts) != 1:
